@@ -255,7 +255,9 @@ class SMIO(GameIO):
             if not bp:
                 return "no tempo point"
             for b in bp:
-                if not (_num_ok(b.get("offset")) and _num_ok(b.get("bpm")) and b["bpm"] > 0 and eqv(b.get("metronome", NAN), 4)):
+                # (.sm has no time signature: the in-memory metronome is bookkeeping, any whole number of beats is in the domain)
+                if not (_num_ok(b.get("offset")) and _num_ok(b.get("bpm")) and b["bpm"] > 0 and _num_ok(b.get("metronome"))
+                        and float(b["metronome"]).is_integer() and 1 <= b["metronome"] <= 16):
                     return "tempo point out of domain"
             key = sorted((float(b["offset"]), float(b["bpm"])) for b in bp)
             if len({t for t, _ in key}) != len(key):
